@@ -4,6 +4,7 @@ import PMV.Spec.StrLex
 import PMV.Generated.Strings
 import PMV.Proofs.MiniString
 import PMV.Model.Shebang
+import PMV.Model.Encoding
 namespace PMV.Driver.Strings
 open PMV PMV.Driver PMV.MiniString
 
@@ -31,6 +32,17 @@ def strlex (args : List Sexp) : Option String := do
 
 def escViolations (_ : List Sexp) : Option String :=
   some (if EscOK Generated.escTable then "()" else "(EscOK-fails)")
+
+/-- `encoding.normal <codepoints>` → what the declared name stands for: `utf8`, `latin1` or `other` -/
+def encodingNormal (args : List Sexp) : Option String := do
+  match args with
+  | [s] =>
+    let s ← cps? s
+    match Encoding.normalName s with
+    | .utf8 => pure "utf8"
+    | .latin1 => pure "latin1"
+    | .other _ => pure "other"
+  | _ => none
 
 end PMV.Driver.Strings
 
